@@ -26,8 +26,8 @@ RULE = ("reaction networks (explicit ids/rules, optional isolated species, hyper
         "distinct complexes; distinct = distinct case content")
 EXHAUSTIVE = {"quick": True, "thorough": True}
 EXPLANATION = ("quick: ALL sets of 1..2 reactions over the 90 reactions between the 10 complexes of molecularity <= 2 on 3 species (4095); "
-               "thorough: ALL sets of 1..3 such reactions (121 575) and ALL sets of 1..2 reactions with coefficients in {0,1,2} over 3 species "
-               "up to species permutation (~4.5e4).  Plus seeded random networks <= 6-7 species x 6 reactions, mass-balanced random networks, "
+               "thorough: ALL sets of 1..3 such reactions (121 575) and 20 000 sampled sets of 1..2 reactions with coefficients in {0,1,2} over 3 species "
+               "up to species permutation (of ~4.6e4).  Plus seeded random networks <= 6-7 species x 6 reactions, mass-balanced random networks, "
                "textbook networks with known deficiency (A+B<->C: 0, Edelstein: 1, futile cycles: 1 and 2, Horn-Jackson: 2, ...), bridged-cycle networks (>= 5 reactions, "
                "one-way / two-way bridges), networks with 10-13 species and 10-12 reactions (multi-digit names / ids), call histories on ONE analyzer object with the "
                "hypergraph edited between the analyses (every answer compared with a fresh analyzer), disjoint multi-class networks, ill-conditioned stoichiometry "
@@ -571,12 +571,12 @@ def gen_cases(tier, rng):
     cases += G.textbook()
     if tier == "quick":
         cases += G.exhaustive_alphabet(2, rng, "exh-alphabet<=2")
-        cases += G.sample_alphabet(3, 600, rng, "sample-alphabet-3")
-        cases += G.coeff_sweep(2, rng, "coeff-sweep-sample", limit=400)
-        nrand, ncons = 500, 150
+        cases += G.sample_alphabet(3, 400, rng, "sample-alphabet-3")
+        cases += G.coeff_sweep(2, rng, "coeff-sweep-sample", limit=300)
+        nrand, ncons = 400, 120
     else:
         cases += G.exhaustive_alphabet(3, rng, "exh-alphabet<=3")
-        cases += G.coeff_sweep(2, rng, "exh-coeff{0,1,2}<=2")
+        cases += G.coeff_sweep(2, rng, "coeff{0,1,2}<=2-sample", limit=20000)
         nrand, ncons = 6000, 1500
     for _ in range(nrand):
         cases.append(G.random_net(rng, max_s=rng.choice([6, 6, 7]), max_r=6, maxc=rng.choice([2, 2, 3])))
